@@ -377,11 +377,10 @@ def run(ctx):
                           ('lp', rc.make_lp(fragment=b'\x00' * n * 3, headers=[(0x3E8, b'')] * n)),
                           ('data', rc.enc_tlv(6, rc.enc_name([b'\x08\x01a']) + rc.enc_tlv(0xF0, b'') * n))):
             judge(ctx, dec, wire, f'large-{n}')
-    if not ctx.events.get('step-monitored'):
-        ctx.inconclusive('step monitor observed nothing')
+    ctx.need_event('step-monitored')
     for dec in decs:
-        if not ctx.events.get(f'{dec}:acc/acc') or not ctx.events.get(f'{dec}:rej/rej'):
-            ctx.inconclusive(f'decoder {dec}: no accept/accept or reject/reject outcome observed')
+        ctx.need_event(f'{dec}:acc/acc')
+        ctx.need_event(f'{dec}:rej/rej')
     ctx.assumptions = ['critical = odd type number, as the library documents (types <= 31 are not treated as critical)',
                        'legal integer width = 1, 2, 4 or 8 (fixed widths of Nonce/HopLimit not demanded)',
                        'non-minimal var-number encodings are not rejected (not demanded)',
